@@ -39,6 +39,11 @@ def models():
     s = Spec(nx=2, nu=1, ode=[X(1), U(0)], note='double integrator')
     s.cons = [Con('<=', X(0), 1, grid='inf'), Con('>=', X(0) * 2 + X(1), -3, grid='inf'), Con('==', at_t0(X(0)), 0)]
     out.append(s)
+    # reflected operations: constant / parameter on the left of the state polynomial (c - p(x), c * p(x), -p(x))
+    s = Spec(nx=2, nu=1, ode=[X(1), U(0)], params=[Sym('a', value=2)], note='double integrator, reflected operands')
+    s.cons = [Con('<=', 1 - X(0), Fr(3, 2), grid='inf'), Con('>=', 3 - (X(0) * 2 + X(1)), -1, grid='inf'), Con('<=', Pg('a') - X(1), 4, grid='inf'),
+              Con('<=', -X(0) + 2 * X(1), 5, grid='inf'), Con('==', at_t0(X(0)), 0)]
+    out.append(s)
     # rate bound through inf_der: the derivative of the state polynomial is certified
     s = Spec(nx=2, nu=1, ode=[X(1), U(0)], note='double integrator, inf_der rate bound')
     s.cons = [Con('<=<=', Fr(-3, 10), Fr(3, 10), mid=inf_der(X(0)), grid='inf'), Con('==', at_t0(X(0)), 0)]
@@ -59,6 +64,9 @@ def instances(tier, seed):
         for mi, s in enumerate(models()):
             if method == 'DC' and 'inf_der' in s.note:
                 continue    # derivative of the rounded collocation power basis vs the state polynomial agree only up to 1e-15: not an exact identity
+            if method == 'DC' and 'reflected' in s.note:
+                s = copy.deepcopy(s)
+                s.cons = s.cons[:3] + s.cons[4:]      # four certificates on the degree-4 collocation rows exceed z3's budget for N = 3
             for g in grids:
                 Ns = [2, 3] if tier == 'quick' else [1, 2, 3]
                 for N in Ns[: (1 if tier == 'quick' else 3)] if g[0] != 'function' else ([2] if method == 'DC' else [3]):
